@@ -5,7 +5,7 @@
 From Coq Require Import String.
 From Coq Require Import List NArith ZArith Bool.
 From P9 Require Import Base.Res Base.Sexp Model.Path Model.Ramfs.
-From P9 Require Import Proofs.RamfsProofs Proofs.RamfsProofsRef Proofs.RamfsProofsInv Proofs.RamfsProofsStep Proofs.RamfsProofsSpec Proofs.RamfsProofsLocks.
+From P9 Require Import Proofs.RamfsProofs Proofs.RamfsProofsRef Proofs.RamfsProofsInv Proofs.RamfsProofsStep Proofs.RamfsProofsSpec Proofs.RamfsProofsWalk Proofs.RamfsProofsLocks.
 From P9 Require Import Gen.GenRamfsLocks.
 Import ListNotations.
 Open Scope Z_scope.
@@ -121,6 +121,37 @@ Theorem C18_listing : forall s h l, fh_opendir s h = Ok l ->
     dd = n_info (getn s (last (h_parents h) (h_ent h))).
 Proof. exact fh_opendir_listing. Qed.
 Print Assumptions C18_listing.
+
+(* ---- walks (including '..') resolve as in a plain tree walk: [spec_walk] goes one name
+   at a time over the chain root..entry by which the fid arrived - '..' drops the
+   last element (the entry the fid came through, also when that link has since been
+   removed), a name looks the child up in the current entry.  FileHandle.Walk's
+   index arithmetic returns exactly the entries passed (as qids), and binds the new
+   handle to the final chain iff every name resolved. *)
+Theorem C18_walk : forall s h names qids oh s',
+  fh_walk s h names = Ok (qids, oh, s') ->
+  let '(v, f) := spec_walk s (hids h) names in
+  qids = map (fun a => qid_of (n_info (getn s a))) v /\
+  match oh with
+  | Some h2 => f = Some (hids h2) /\ length v = length names
+  | None => f = None /\ s' = s
+  end.
+Proof. exact fh_walk_spec'. Qed.
+Print Assumptions C18_walk.
+
+Example C18_walk_nonvacuous :
+  run (init_world 1)
+      [OAttach 0 0 (str "u"%string); OWalk 0 0 1 []; OCreate 0 1 (str "d"%string) (N.lor DMDIR 511) 0;
+       OWalk 0 0 2 [str "d"%string]; OWalk 0 2 3 []; OCreate 0 3 (str "f"%string) 438 2;
+       OWalk 0 2 4 [str ".."%string; str "d"%string; str "f"%string];
+       OWalk 0 2 5 [str ".."%string; str "d"%string; str "x"%string];
+       OWalk 0 2 6 [str ".."%string; str ".."%string]]
+  = [Ok (RQid (128, 1, 0)%N); Ok (RQids []); Ok (RQid (128, 2, 0)%N);
+     Ok (RQids [(128, 2, 0)%N]); Ok (RQids []); Ok (RQid (0, 3, 0)%N);
+     Ok (RQids [(128, 1, 0)%N; (128, 2, 0)%N; (0, 3, 0)%N]);
+     Ok (RQids [(128, 1, 0)%N; (128, 2, 0)%N]);
+     Err e_invalidpath].
+Proof. vm_compute. reflexivity. Qed.
 
 (* ---- concurrent sessions: lock discipline of the CURRENT source of /repo/ramfs.
    [ramfs_accesses] is regenerated from the source on every run (translator
